@@ -48,11 +48,11 @@ from sim.core import sub_rng, jdump
 
 PROP = "C10"
 LEVEL = "exploration"
-TIERS = {"quick": dict(runs=160, chunk=2), "thorough": dict(budget_s=480, max_runs=6000, chunk=2)}
-RUN_WALL_CAP = 120
+TIERS = {"quick": dict(runs=400, chunk=2), "thorough": dict(budget_s=480, max_runs=6000, chunk=2)}
+RUN_WALL_CAP = 1200
 CHUNK_WALL_CAP = 900
 WORK_BUDGET = {"quick": 80_000, "thorough": 400_000}     # numpy.linalg.norm calls per run (deterministic)
-INNER_WALL_CAP = 45.0                                     # seconds per run (backstop, real clock)
+INNER_WALL_CAP = 900.0                                    # seconds per run (pure backstop, real clock: never reached in practice, the deterministic work cap bounds a run)
 RULE = ("one case = one minimize_mma run on a generated convex problem: 1-4 variable signals (float / 1-element array / "
         "vector, n <= 6 quick, n <= 8 thorough), objective dense-quadratic / separable-quadratic / sum c_i/x_i, 1-4 "
         "constraints (linear / convex quadratic / reciprocal, on all or a subset of the signals), xmin / xmax / move each "
@@ -65,7 +65,8 @@ PROBES = ["variable_at_bound", "asymptote_decrease", "asymptote_increase", "acti
           "per_signal_bounds", "per_variable_move", "per_signal_move", "float_signal", "arr1_signal", "vector_signal",
           "multi_signal", "response_without_signal", "start_on_bound", "infeasible_start", "converged_tolx", "maxit_reached",
           "newton_cap_message", "version_1987", "version_2007", "constraint_active_at_optimum", "bound_active_at_optimum",
-          "liveness_judged", "concat_network", "spy_installed", "work_counter_seen", "integer_typed_start", "signals_share_initial_array"]
+          "liveness_judged", "concat_network", "spy_installed", "work_counter_seen", "integer_typed_start", "signals_share_initial_array", "variables_of_different_magnitude", "large_variables_start_converged"]
+# observation-only counter (not a workload target): stopped_before_maxit_without_meeting_tolx
 FAULT_KINDS = []
 COMPONENTS = {"real": ["pymoto.minimize_mma", "pymoto.common.mma.MMA / mmasub / subsolv", "pymoto.Network / Module backpropagation",
                        "pymoto.utils._concatenate_to_array", "numpy.linalg.solve"],
@@ -219,7 +220,8 @@ def gen(rng, idx, tier):
         asydecr=float(rng.choice([0.7, 0.7, 0.5, 0.9])), albefa=float(rng.choice([0.1, 0.1, 0.05, 0.4])),
         epsimin=float(rng.choice([0.0, 0.0, 1e-7, 1e-9])),          # 0.0 = library default (1e-10)
         tolx=float(rng.choice([1e-4, 1e-4, 1e-6, 0.0])), maxit=maxit,
-        net=str(rng.choice(["direct", "direct", "concat"])), tier=tier, share=bool(rng.random() < 0.35), ops=[])
+        net=str(rng.choice(["direct", "direct", "concat"])), tier=tier, share=bool(rng.random() < 0.35),
+        vscale=bool(rng.random() < 0.5), bigopt=bool(rng.random() < 0.6), weakbig=bool(rng.random() < 0.6), ops=[])
 
 
 def simplify(case):
@@ -272,7 +274,10 @@ class Resp:
         self.kind = kind
         self.__dict__.update(kw)
 
+    sc = 1.0    # per-variable scaling of the design space: the response is evaluated at z = x / sc
+
     def value(self, x):
+        x = x / self.sc
         if self.kind == "quad":
             d = x - self.p
             return 0.5 * float(d @ self.B @ d) * self.s + self.o
@@ -281,11 +286,12 @@ class Resp:
         return float(np.sum(self.c / x)) * self.s + self.o
 
     def grad(self, x):
+        x = x / self.sc
         if self.kind == "quad":
-            return (self.B @ (x - self.p)) * self.s
+            return (self.B @ (x - self.p)) * self.s / self.sc
         if self.kind == "lin":
-            return self.a * self.s
-        return -self.c / x ** 2 * self.s
+            return self.a * self.s / self.sc
+        return -self.c / x ** 2 * self.s / self.sc
 
 
 def _psd(rng, n, mask, full_rank, lo_ev=0.5, hi_ev=4.0):
@@ -324,10 +330,19 @@ def build(case):
     mv = _expand(case["move_mode"], rng, sizes, case["move"], case["move"])
     rngw = hi - lo
     xf = lo + rng.uniform(0.25, 0.75, n) * rngw
+    # which variables will be scaled to another magnitude (see the end of this function)
+    sc = np.ones(n)
+    if case.get("vscale") and case["min_mode"] != "scalar" and case["max_mode"] != "scalar" and len(sizes) > 1:
+        fac = [1.0, 1e4, 1e-3, 1e2]
+        per_sig = [fac[(case["pseed"] + 3 * i) % 4] if i > 0 else 1.0 for i in range(len(sizes))]
+        sc = np.concatenate([np.full(sz, per_sig[i]) for i, sz in enumerate(sizes)])
+    # "weakbig": the large-magnitude variables are decoupled from the rest (separable objective, not in any constraint), so that
+    # once they sit at their optimum they stay there while the other variables still move
+    weakbig = bool(case.get("weakbig")) and bool(np.any(sc > 1.0)) and not bool(np.all(sc > 1.0))
     # objective
     full = np.ones(n, dtype=bool)
     if case["obj"] in ("quad", "sepquad"):
-        if case["obj"] == "quad":
+        if case["obj"] == "quad" and not weakbig:
             B = _psd(rng, n, full, True)
         else:
             B = np.diag(rng.uniform(0.5, 4.0, n))
@@ -342,6 +357,8 @@ def build(case):
         for i in range(len(sizes)):
             if sub == 0 or (sub >> i) & 1:
                 mask[cum[i]:cum[i + 1]] = True
+        if weakbig and np.any(mask & ~(sc > 1.0)):
+            mask = mask & ~(sc > 1.0)
         slack = float(rng.uniform(0.05, 0.4))
         if cc["kind"] == "lin":
             a = rng.uniform(0.3, 1.5, n) * (1.0 if case["obj"] == "recip" else rng.choice([-1.0, 1.0], n)) * mask
@@ -382,16 +399,34 @@ def build(case):
             x0 = lo + u * rngw
     else:
         x0 = np.where(pick == 0, lo, np.where(pick == 1, hi, lo + u * rngw))
-    return dict(sizes=sizes, n=n, cum=cum, lo=lo, hi=hi, mv=mv, xf=xf, resps=resps, masks=masks, x0=x0)
+    # variables of very different magnitude (a scalar in [0, 1e4] next to an array in [0, 1]): only possible when both bounds
+    # are given per signal or per variable.  The problem is the same one in scaled coordinates x = sc * z.
+    if np.any(sc != 1.0):
+        for r in resps:
+            r.sc = sc
+        lo, hi, xf, x0 = lo * sc, hi * sc, xf * sc, x0 * sc
+    return dict(sizes=sizes, n=n, cum=cum, lo=lo, hi=hi, mv=mv, xf=xf, resps=resps, masks=masks, x0=x0, sc=sc)
 
 
 def reference_optimum(pb, seed):
     """ SLSQP from several starts; returns (fstar, xstar, ok) -- ok only if two starts agree and the point is feasible """
     from scipy.optimize import minimize
-    resps, lo, hi = pb["resps"], pb["lo"], pb["hi"]
+    sc = pb.get("sc", 1.0)
+    resps, lo, hi = pb["resps"], pb["lo"] / sc, pb["hi"] / sc          # solved in the unscaled coordinates z = x / sc
+
+    class _Z:
+        def __init__(self, r):
+            self.r = r
+
+        def value(self, z):
+            return self.r.value(z * sc)
+
+        def grad(self, z):
+            return self.r.grad(z * sc) * sc
+    resps = [_Z(r) for r in resps]
     cons = [dict(type="ineq", fun=(lambda x, r=r: -r.value(x)), jac=(lambda x, r=r: -r.grad(x))) for r in resps[1:]]
     rng = sub_rng(0x5157, seed)
-    starts = [pb["xf"], 0.5 * (lo + hi), lo + rng.random(lo.size) * (hi - lo), lo + rng.random(lo.size) * (hi - lo)]
+    starts = [pb["xf"] / sc, 0.5 * (lo + hi), lo + rng.random(lo.size) * (hi - lo), lo + rng.random(lo.size) * (hi - lo)]
     sols = []
     for s in starts:
         try:
@@ -410,7 +445,7 @@ def reference_optimum(pb, seed):
     sols.sort(key=lambda t: t[0])
     fbest, xbest = sols[0]
     agree = sum(1 for f, _ in sols if abs(f - fbest) <= 1e-7 * (1.0 + abs(fbest)))
-    return fbest, xbest, agree >= 2
+    return fbest, xbest * sc, agree >= 2
 
 
 def _r(v):
@@ -436,6 +471,15 @@ def run(case):
             M[k] = max(M.get(k, 0.0), v)
 
     pb = build(case)
+    if np.any(np.asarray(pb.get("sc", 1.0)) != 1.0):
+        res["probes"]["variables_of_different_magnitude"] = res["probes"].get("variables_of_different_magnitude", 0) + 1
+    if case.get("bigopt") and np.any(np.asarray(pb.get("sc", 1.0)) > 1.0):
+        # the large-magnitude variables start at their optimum (already converged) while the others still have to move
+        f_, x_, ok_ = reference_optimum(pb, case["pseed"])
+        if ok_:
+            big = np.asarray(pb["sc"]) > 1.0
+            pb["x0"] = np.where(big, np.clip(x_, pb["lo"], pb["hi"]), pb["x0"])
+            res["probes"]["large_variables_start_converged"] = res["probes"].get("large_variables_start_converged", 0) + 1
     sizes, n, cum, lo, hi, mv, resps, masks, x0 = (pb[k] for k in ("sizes", "n", "cum", "lo", "hi", "mv", "resps", "masks", "x0"))
     m = len(resps) - 1
     dxr = hi - lo
@@ -817,6 +861,11 @@ def _liveness(case, pb, res, snaps, subs, probe, skip, margin, viol, out_txt):
     nit = len(snaps)
     # stopping reason: the loop ends either at maxit or by the step-size criterion
     converged = nit <= maxit and len(subs) == nit and nit > 0 and case["tolx"] > 0 and _last_step_small(case, pb, snaps, subs)
+    if not converged and 0 < nit < maxit and len(subs) == nit:
+        # the optimiser stopped on its own before maxit although the documented step-size criterion is not met: whatever made
+        # it stop, a run that declares itself finished is judged like a converged one (it must have approached the optimum)
+        converged = True
+        probe("stopped_before_maxit_without_meeting_tolx")
     if converged:
         probe("converged_tolx")
         res["trace"].append("end:tolx")
@@ -848,7 +897,7 @@ def _liveness(case, pb, res, snaps, subs, probe, skip, margin, viol, out_txt):
     # iteration): 20 iterations + the time for the asymptote offset to shrink 100-fold, and enough travel to cross the box twice.
     need = 20 + int(np.ceil(np.log(0.01) / np.log(float(case["asydecr"]))))
     travel = float(np.min(mv)) * (nit - 1)
-    if case["asyincr"] > 1.2 + 1e-12 or case["asydecr"] > 0.7 + 1e-12:
+    if (case["asyincr"] > 1.2 + 1e-12 or case["asydecr"] > 0.7 + 1e-12) and nit >= maxit:
         # plain MMA (no GCMMA inner loop) is not globally convergent: with aggressive widening (asyincr = 1.5) or weak
         # narrowing (asydecr = 0.9) the unchanged tree cycles for hundreds of iterations on some convex problems
         # (calibration over 400 judged thorough-tier runs: 3 of 108 runs with asyincr = 1.5 miss the 1 % gap after 100-300
